@@ -124,6 +124,26 @@ def cases(tier):
                         out.append(dict(kind="spline", L=L, N=N, grid=g, form=form, horizon="fixed"))
                         for order in ("guess_first", "T_first"):
                             out.append(dict(kind="spline", L=L, N=N, grid=g, form=form, horizon="Tfree", order=order))
+    # several algebraic variables of different widths (DirectCollocation): every guess lands on its own variable
+    for widths in ((2, 1, 1), (1, 2, 1), (1, 1), (3, 1)):
+        for which in range(len(widths)):
+            for form in ("const", "expr"):
+                for when in ("before", "after"):
+                    for M in (1, 2):
+                        out.append(dict(kind="dae_multi", widths=list(widths), which=which, form=form, when=when, M=M, degree=2 if M == 2 else 3))
+    # DAE whose algebraic equation has two branches: the guess of z selects the branch the integrator follows, so it is
+    # part of what the solver receives also under the shooting methods (where z is not a decision variable)
+    BOPS = ["solve", "set_u", "edit", "set_z_low", "set_z_high", "query"]
+    for meth in ("MS_collocation", "MS_idas", "SS_collocation", "DC"):
+        for h in explore.histories(list(range(len(BOPS))), 3):
+            out.append(dict(kind="dae_branch", method=meth, ops=[BOPS[i] for i in h]))
+    # global variables whose own shape has N or N+1 columns (must not be mistaken for one column per interval)
+    for meth in ("MS", "SS", "DC"):
+        for N in (2, 3):
+            for shape in ("1xN", "1xN1", "2xN", "Nx1"):
+                for form in ("const", "matrix"):
+                    for when in ("before", "after"):
+                        out.append(dict(kind="vshape", method=meth, N=N, shape=shape, form=form, when=when))
     depth = 4 if tier == "thorough" else 3
     for h in explore.histories(list(range(len(HALPHA))), depth):
         if h:
@@ -312,9 +332,149 @@ def run_spline(case):
     return dict(violations=vios, evaluations=L + 2, traces=1, transitions=3, outcome=explore.sha(case), nontrivial=True, sample=case)
 
 
+def run_dae_multi(case):
+    """DAE with several algebraic variables of different widths under DirectCollocation: a guess given for one of them
+    (before / after a first transcription) is the start value of exactly that variable at every collocation time; the
+    others start at 0"""
+    import rockit, casadi as ca, sys
+    widths, which, form, when, M, deg = case["widths"], case["which"], case["form"], case["when"], case["M"], case["degree"]
+    tags = ["method=DC", "widths=%s" % widths, "target=z%d" % which, "form=%s" % form, "when=%s" % when, "M=%d" % M]
+    vios = []
+    try:
+        t0, T, N = -0.4, 1.6, 2
+        ocp = rockit.Ocp(t0=t0, T=T)
+        x = ocp.state(); u = ocp.control()
+        zs = [ocp.algebraic(wd) for wd in widths]
+        ocp.set_der(x, -x + u + sum(ca.sum1(z_) for z_ in zs))
+        for i, z_ in enumerate(zs):
+            ocp.add_alg(z_ - (0.3 + 0.1 * i) * x - 0.05 * ocp.t)
+        ocp.subject_to(ocp.at_t0(x) == 0.5); ocp.subject_to(-1 <= (u <= 1))
+        ocp.add_objective(ocp.integral(x * x + u * u))
+        ocp.solver("ipopt", {"ipopt.print_level": 0, "print_time": False, "ipopt.sb": "yes", "ipopt.max_iter": 0})
+        ocp.method(rockit.DirectCollocation(N=N, M=M, degree=deg))
+        guess = (0.45 + 0.2 * ocp.t) if form == "expr" else 0.45
+        if when == "after":
+            ocp.solve_limited()
+        ocp.set_initial(zs[which], guess)
+        nlp = NL.Nlp(ocp)
+        F = ca.Function("f", [nlp.x, nlp.p], [ocp.sample(ocp.t, grid="integrator_roots")[1]] + [ocp.sample(z_, grid="integrator_roots")[1] for z_ in zs])
+        out = [np.array(o) for o in F(nlp.x0, nlp.p0)]
+        tr = out[0].reshape(-1)
+        for i, (wd, got) in enumerate(zip(widths, out[1:])):
+            got = np.atleast_2d(got); got = got.reshape(wd, -1, order="F") if got.shape[0] != wd else got
+            if i == which:
+                want = np.tile((0.45 + 0.2 * tr) if form == "expr" else np.full(tr.shape, 0.45), (wd, 1))
+            else:
+                want = np.zeros((wd, tr.size))
+            if got.shape != want.shape or not NL.close(got, want, 1e-9):
+                vios.append(dict(sig="value:x0:algebraic:%s" % ("target" if i == which else "other"), tags=tags, detail="start values of algebraic %d (width %d) are %s, the guesses imply %s" % (i, wd, np.round(got, 4).tolist(), np.round(want, 4).tolist())))
+                break
+    except Exception as e:
+        fr_ = core.rockit_frame(sys.exc_info()[2])
+        if fr_ is None and not isinstance(e, (RuntimeError, AssertionError, AttributeError)):
+            raise
+        vios.append(dict(sig="exception:dae_multi:%s" % (fr_ or type(e).__name__), tags=tags, detail="%s: %s" % (type(e).__name__, str(e)[:200])))
+    return dict(violations=vios, evaluations=len(widths), traces=1, transitions=2, outcome=explore.sha(case), nontrivial=True, sample=case)
+
+
+def branch_program(meth, zguess, uguess, edited):
+    import rockit, casadi as ca
+    ocp = rockit.Ocp(t0=0.1, T=1.2)
+    x = ocp.state(); u = ocp.control(); z = ocp.algebraic()
+    ocp.set_der(x, -x + u + 0.2 * z)
+    ocp.add_alg((z - 1) * (z - 5))          # two isolated roots: the start value of z selects one
+    ocp.subject_to(ocp.at_t0(x) == 0.5); ocp.subject_to(-1 <= (u <= 1))
+    if edited:
+        ocp.subject_to(x <= 4)
+    ocp.add_objective(ocp.integral(x * x + u * u))
+    ocp.set_initial(z, zguess)
+    if uguess is not None:
+        ocp.set_initial(u, uguess)
+    ocp.solver("ipopt", hist.SOLVER_OPTS["A"])
+    m_, ig = (meth.split("_") + [None])[:2]
+    ocp.method({"MS": lambda: rockit.MultipleShooting(N=2, intg=ig), "SS": lambda: rockit.SingleShooting(N=2, intg=ig), "DC": lambda: rockit.DirectCollocation(N=2, degree=2)}[m_]())
+    return ocp, dict(x=x, u=u, z=z)
+
+
+def run_dae_branch(case):
+    import sys
+    meth, ops = case["method"], case["ops"]
+    tags = ["method=%s" % meth, "dae_branch"] + sorted(set(("post:" if "solve" in ops[:i] or "query" in ops[:i] else "pre:") + o for i, o in enumerate(ops) if o not in ("solve", "query")))
+    vios = []
+    try:
+        hist.SPY.install()
+        zg, ug, edited = 4.5, None, False
+        ocp, s_ = branch_program(meth, zg, ug, edited)
+        for o in ops:
+            if o == "solve": ocp.solve_limited()
+            elif o == "query": ocp.sample(s_["x"], grid="control")
+            elif o == "set_u": ocp.set_initial(s_["u"], 0.3); ug = 0.3
+            elif o == "edit":
+                if not edited:
+                    ocp.subject_to(s_["x"] <= 4); edited = True
+            elif o == "set_z_low": ocp.set_initial(s_["z"], 0.2); zg = 0.2
+            elif o == "set_z_high": ocp.set_initial(s_["z"], 4.5); zg = 4.5
+        r = P.Real(); r.ocp = ocp
+        obs = hist.observe(r)
+        of, _ = branch_program(meth, zg, ug, edited)
+        rf = P.Real(); rf.ocp = of
+        fresh = hist.observe(rf)
+        if "error" in obs or "error" in fresh:
+            vios.append(dict(sig="exception:observe", tags=tags, detail=str(obs.get("error") or fresh.get("error"))[:200]))
+        else:
+            df = hist.obs_equal(obs, fresh)
+            if df:
+                vios.append(dict(sig="stale:" + "+".join(df), tags=tags, detail="after %s the next solve differs from a fresh OCP with the same guesses (z guess %g selects the branch) in %s" % (ops, zg, df)))
+    except Exception as e:
+        fr_ = core.rockit_frame(sys.exc_info()[2])
+        if fr_ is None and not isinstance(e, (RuntimeError, AssertionError, AttributeError)):
+            raise
+        vios.append(dict(sig="exception:dae_branch:%s" % (fr_ or type(e).__name__), tags=tags, detail="%s: %s" % (type(e).__name__, str(e)[:200])))
+    return dict(violations=vios, evaluations=2, traces=2, transitions=len(ops) + 1, outcome=explore.sha([case, [v["sig"] for v in vios]]), nontrivial=True, sample=case)
+
+
+def run_vshape(case):
+    """a global (matrix-valued) variable whose own shape happens to have N or N+1 columns: its guess is its start value,
+    entry by entry"""
+    import rockit, casadi as ca, sys
+    meth, N, shape, form, when = case["method"], case["N"], case["shape"], case["form"], case["when"]
+    tags = ["method=%s" % meth, "N=%d" % N, "shape=%s" % shape, "form=%s" % form, "when=%s" % when]
+    vios = []
+    try:
+        rr, cc = {"1xN": (1, N), "1xN1": (1, N + 1), "2xN": (2, N), "Nx1": (N, 1)}[shape]
+        ocp = rockit.Ocp(t0=0.2, T=1.5)
+        x = ocp.state(); u = ocp.control()
+        wv = ocp.variable(rr, cc)
+        ocp.set_der(x, -x + u)
+        ocp.subject_to(ocp.at_t0(x) == 0.5); ocp.subject_to(-1 <= (u <= 1))
+        ocp.add_objective(ocp.integral(x * x + u * u) + ca.sumsqr(wv - 0.3))
+        ocp.solver("ipopt", {"ipopt.print_level": 0, "print_time": False, "ipopt.sb": "yes", "ipopt.max_iter": 0})
+        ocp.method({"MS": rockit.MultipleShooting(N=N), "SS": rockit.SingleShooting(N=N), "DC": rockit.DirectCollocation(N=N, degree=2)}[meth])
+        want = np.full((rr, cc), 0.45) if form == "const" else np.array([[0.4 + 0.35 * r_ - 0.6 * c_ + 0.1 * c_ * c_ for c_ in range(cc)] for r_ in range(rr)])
+        if when == "after":
+            ocp.solve_limited()
+        ocp.set_initial(wv, 0.45 if form == "const" else want)
+        nlp = NL.Nlp(ocp)
+        got = np.array(ca.Function("f", [nlp.x, nlp.p], [ocp.value(wv)])(nlp.x0, nlp.p0)).reshape(rr, cc)
+        if not NL.close(got, want, 1e-9):
+            vios.append(dict(sig="value:x0:global-matrix-variable", tags=tags, detail="start value of a %dx%d global variable is %s, the guess is %s" % (rr, cc, np.round(got, 4).tolist(), np.round(want, 4).tolist())))
+    except Exception as e:
+        fr_ = core.rockit_frame(sys.exc_info()[2])
+        if fr_ is None and not isinstance(e, (RuntimeError, AssertionError, AttributeError)):
+            raise
+        vios.append(dict(sig="exception:vshape:%s" % (fr_ or type(e).__name__), tags=tags, detail="%s: %s" % (type(e).__name__, str(e)[:200])))
+    return dict(violations=vios, evaluations=1, traces=1, transitions=2, outcome=explore.sha(case), nontrivial=True, sample=case)
+
+
 def run_case(case):
     if case["kind"] == "spline":
         return run_spline(case)
+    if case["kind"] == "vshape":
+        return run_vshape(case)
+    if case["kind"] == "dae_branch":
+        return run_dae_branch(case)
+    if case["kind"] == "dae_multi":
+        return run_dae_multi(case)
     if case["kind"] == "product":
         out = _trans.run_trans(case, OWN, extra_check=x0_check)
         d = case["d"]
@@ -348,6 +508,6 @@ def run_case(case):
 
 def describe(tier):
     return dict(
-        rule="(c) SplineMethod: chain length x N x grid x {constant, affine-in-time} guess of the chain head x {fixed, free horizon with a guess of T before/after}: head and derived members start on the guess (spline coefficients at Greville points reproduce affine functions exactly); (a) deviation-bounded enumeration over target (state, control, global / per-interval / control+ variable, algebraic, T, t0) x guess form (scalar, vector, n x N, n x (N+1), 1-D numpy, DM row, time expression) x second call (same target again, guess of T before/after, control expression) x method/N/M/degree/grid/horizon/scale plus the full target x form x method x grid table: the public read-back of opti's starting point equals an independent guess evaluator (entries the statement leaves open are excluded and counted); rows/objective unchanged; (b) every history of length <= d over 11 ops (guesses incl. dependent ones, query, solve, edit, method), and over 6 ops (two guesses of T, time-expression guesses, query, solve) on 4 grids with their own time variables (localized t0 / T, free): next solve = fresh OCP and = the evaluator",
+        rule="(f) DAE with a two-branch algebraic equation under MS/SS with the collocation / idas integrators and under DC: every history of length <=3 over {solve, query, guess of u, edit, guess of z on either branch}: next solve = fresh OCP with the final guesses; (e) global variables of shape 1xN, 1x(N+1), 2xN, Nx1 x {constant, matrix} guess x method x {before, after}: start value = guess entry by entry; (d) DAE with 2-3 algebraic variables of widths from {1,2,3} under DirectCollocation x target x {constant, time expression} x {before, after a first transcription}: the guess is the start value of exactly that variable at every collocation time, the others start at 0; (c) SplineMethod: chain length x N x grid x {constant, affine-in-time} guess of the chain head x {fixed, free horizon with a guess of T before/after}: head and derived members start on the guess (spline coefficients at Greville points reproduce affine functions exactly); (a) deviation-bounded enumeration over target (state, control, global / per-interval / control+ variable, algebraic, T, t0) x guess form (scalar, vector, n x N, n x (N+1), 1-D numpy, DM row, time expression) x second call (same target again, guess of T before/after, control expression) x method/N/M/degree/grid/horizon/scale plus the full target x form x method x grid table: the public read-back of opti's starting point equals an independent guess evaluator (entries the statement leaves open are excluded and counted); rows/objective unchanged; (b) every history of length <= d over 11 ops (guesses incl. dependent ones, query, solve, edit, method), and over 6 ops (two guesses of T, time-expression guesses, query, solve) on 4 grids with their own time variables (localized t0 / T, free): next solve = fresh OCP and = the evaluator",
         bound="k<=%d deviations + table; history depth %d" % ((3, 4) if tier == "thorough" else (2, 3)),
         assumptions=["CasADi Opti.initial() is the solver's starting point", "array guesses do not pin helper states / final-node entries beyond their columns (excluded, counted)", "time-expression guesses on FreeGrid are not pinned (no declared partition)"])
